@@ -143,7 +143,7 @@ def oracle_c12(cfgl, lines):
     woi = cfg.get("policy") == "woi"
     foc = cfg.get("foc", "1") == "1"
     admit = cfg.get("admit", "all")
-    admitted = (lambda k: True) if admit == "all" else ((lambda k: False) if admit == "none" else
+    admitted = (lambda k: True) if admit == "all" else ((lambda k: False) if admit in ("none", "throttle") else
                                                        (lambda k, s=set(map(int, admit.split(","))): k in s))
     mem = {}        # resident key -> dict(loc, from_disk)
     expect = {}     # key -> number of entry writes still owed
@@ -241,8 +241,9 @@ def oracle_c15(cfgl, lines):
             if loc != "inmem" and (woi or loc == "ondisk"):
                 owed.add(k)
             if loc != "ondisk":
+                mem.pop(k, None)
                 mem[k] = loc
-        elif name == "ins" and closed:
+        elif name in ("ins", "rm") and closed:
             if ew:
                 return (n, "a write after close reached the disk")
         elif name == "rm" and not closed:
@@ -251,6 +252,11 @@ def oracle_c15(cfgl, lines):
             mem = {}
         elif name == "close":
             if not closed:
+                memcap = int(cfg.get("mem", 100000))
+                if memcap < 1000 and cfg.get("algo") == "fifo":
+                    # small FIFO memory: only the last `mem` inserted keys are resident
+                    keep = list(mem)[-memcap:]
+                    mem = {k: mem[k] for k in keep}
                 at_close = dict(mem)
                 extra = [e for e in ew if e[0] not in owed]
                 if not foc and extra:
